@@ -90,7 +90,10 @@ class Ctx:
             os.makedirs(BUILD, exist_ok=True)
             rc, out, err, _ = run(["go", "build"] + MODFLAGS + ["-o", os.path.join(BUILD, "srcgen"), "./cmd/srcgen"], cwd=HARNESS, env=GOENV, timeout=600)
             if rc != 0:
-                raise SystemExit("srcgen build failed:\n" + err)
+                if os.path.exists(os.path.join(BUILD, "srcgen")):
+                    self.notes.append("srcgen did not rebuild (generator source under edit?); using the previous binary: " + err[-200:])
+                else:
+                    raise SystemExit("srcgen build failed:\n" + err)
             summ = os.path.join(self.scratch, "srcgen.json")
             rc, out, err, _ = run([os.path.join(BUILD, "srcgen"), "-repo", REPO, "-out", os.path.join(COQ, "Generated"), "-summary", summ], timeout=120)
             if rc != 0:
